@@ -9,6 +9,7 @@ import (
 	"bufio"
 	"encoding/json"
 	"fmt"
+	"math"
 	"math/rand"
 	"os"
 	"path/filepath"
@@ -496,12 +497,7 @@ CHECK_DEADLOCK FALSE
 	res := c.runTLC(TLCOpts{Module: "Trace_Wire", Cfg: cfg, Purpose: "producer " + purpose, Workers: 1, Env: []string{"VERIF_TRACE=" + path}, Timeout: 30 * time.Minute,
 		Constants: fmt.Sprintf("%d real encodings, Q=64", lines)})
 	if res.Violated != "" {
-		ms := reTraceL.FindAllStringSubmatch(res.ErrorText, -1)
-		lineNo := 0
-		if len(ms) > 0 {
-			fmt.Sscan(ms[len(ms)-1][1], &lineNo)
-			lineNo--
-		}
+		lineNo := res.LastL - 1
 		keep := filepath.Join(verifRoot, "replays", fmt.Sprintf("%s-wire-trace-%d.ndjson", c.Prop, c.Seed))
 		os.MkdirAll(filepath.Dir(keep), 0o755)
 		copyFile(path, keep)
@@ -601,4 +597,89 @@ func (c *Ctx) runRealTruncations(n int) {
 	c.Ev.Coverage.StepsCompared += cuts
 	c.mu.Unlock()
 	fmt.Printf("  [real truncations] %d real encodings, %d byte prefixes decoded %.0fs\n", n, cuts, time.Since(c.phaseStart).Seconds())
+}
+
+// runExactEncodingsIntoPlain: the last clause of C07 on real encodings with arbitrary (also non-dyadic)
+// weights: a plain decoder accepts the encoding of a sketch with exact summary statistics and ignores
+// the statistics blocks. Compared with the source sketch's own content; a weight may come back as
+// (w+1)-1, i.e. one rounding of the documented varfloat transform away.
+func (c *Ctx) runExactEncodingsIntoPlain(n int) {
+	if !c.phase("exact encodings into the plain decoder") {
+		return
+	}
+	rng := rand.New(rand.NewSource(c.Seed*733 + 9))
+	kinds := []string{"dense", "sparse", "paged", "low", "high"}
+	mapKinds := []MappingSpec{{"log", 0.01}, {"linear", 0.02}, {"cubic", 0.005}}
+	weights := []float64{1, 1, 0.5, 2, 0.7, 0.1, 0.2, 0.3, 1.0 / 3, 0.9, 1e-3, 123.456, 1 << 30, 5}
+	for i := 0; i < n && len(c.violations) == 0; i++ {
+		ms := mapKinds[rng.Intn(len(mapKinds))]
+		mk := func() store.Store {
+			k := kinds[rng.Intn(len(kinds))]
+			if k == "low" || k == "high" {
+				return newRealStore(ModelKind{k, []int{4, 64}[rng.Intn(2)]}, "")
+			}
+			return newRealStore(ModelKind{"exact", 0}, k)
+		}
+		ex, _ := ddsketch.NewDDSketchWithExactSummaryStatisticsFromData(ddsketch.NewDDSketch(ms.build(), mk(), mk()), stat.NewSummaryStatistics())
+		nv := 1 + rng.Intn(6)
+		for j := 0; j < nv; j++ {
+			v := 0.5 + rng.Float64()*40
+			switch rng.Intn(6) {
+			case 0:
+				v = -v
+			case 1:
+				v = 0
+			}
+			ex.AddWithCount(v, weights[rng.Intn(len(weights))])
+		}
+		if rng.Intn(4) == 0 {
+			ex.Reweight([]float64{0.1, 1.0 / 3, 0.7, 3}[rng.Intn(4)])
+		}
+		omit := rng.Intn(3) == 0
+		var b []byte
+		ex.Encode(&b, omit)
+		var supplied mapping.IndexMapping
+		if omit {
+			supplied = ms.build()
+		}
+		consumer := exactRealKinds[rng.Intn(3)]
+		info := map[string]interface{}{"mapping": ms, "count": ex.GetCount(), "bytes": b, "omit": omit, "consumer": consumer}
+		d, err := ddsketch.DecodeDDSketch(b, providerOf(consumer), supplied)
+		if err != nil {
+			c.report(&Violation{Pipeline: "wire-exact-into-plain", Case: info, What: fmt.Sprintf("DecodeDDSketch refused the encoding of a sketch with exact summary statistics (count %v): %v", ex.GetCount(), err),
+				Tags: map[string]string{"outcome": "valid-stream", "decoder": "DecodeDDSketch"}})
+			continue
+		}
+		near := func(a, b float64) bool { return a == b || math.Abs(a-b) <= 4e-16*math.Max(math.Abs(a), math.Abs(b)) || (a+1)-1 == b }
+		cmp := func(name string, src, dst store.Store) string {
+			want := map[int]float64{}
+			src.ForEach(func(i int, c float64) bool { want[i] += c; return false })
+			got := map[int]float64{}
+			dst.ForEach(func(i int, c float64) bool { got[i] += c; return false })
+			if len(want) != len(got) {
+				return fmt.Sprintf("%s store: %d bins decoded, source has %d", name, len(got), len(want))
+			}
+			for k, v := range want {
+				if !near(v, got[k]) {
+					return fmt.Sprintf("%s bin %d: decoded weight %v, source %v", name, k, got[k], v)
+				}
+			}
+			return ""
+		}
+		what := cmp("positive", ex.GetPositiveValueStore(), d.GetPositiveValueStore())
+		if what == "" {
+			what = cmp("negative", ex.GetNegativeValueStore(), d.GetNegativeValueStore())
+		}
+		if what == "" && !near(ex.GetZeroCount(), d.GetZeroCount()) {
+			what = fmt.Sprintf("zero weight %v decoded, source %v", d.GetZeroCount(), ex.GetZeroCount())
+		}
+		if what != "" {
+			c.report(&Violation{Pipeline: "wire-exact-into-plain", Case: info, What: "plain decoder on an exact-statistics encoding: " + what, Tags: map[string]string{"outcome": "valid-stream"}})
+		}
+	}
+	c.mu.Lock()
+	c.Ev.Coverage.Evaluations += int64(n)
+	c.Ev.Coverage.Traces += int64(n)
+	c.mu.Unlock()
+	fmt.Printf("  [exact encodings into the plain decoder] %d real exact-statistics encodings with arbitrary weights decoded by the plain decoder %.0fs\n", n, time.Since(c.phaseStart).Seconds())
 }
